@@ -452,6 +452,59 @@ def generic_lattice_check(prop, tier, seed, quick_fams, thorough_fams, sim_quick
     return out
 
 
+def measure_model(out, tier, seed, fams, sim_count, tag, dims=(1, 2, 3)):
+    """Design level of C02 / C14 / C04 (VMeasure, MCVMeasure, VTileTrace): on every finished cell of the cell machine both signed
+    decompositions agree per plane (volume, moments up to degree two, signed area, face moments), the surface is closed, every
+    face pyramid has volume area x height / 3 - exact rational identities evaluated by TLC in three prime fields -, and the
+    exact volumes of the cells of every input sum to the measure of the box, whatever the order of equidistant candidates."""
+    ensure_dirs()
+    vol_file = os.path.join(OUT, "%s_vol.raw" % tag)
+    inputs = sim_inputs(seed + 101, sim_count, tier, dims=dims)
+    inf = os.path.join(OUT, "%s_measure_siminputs.ndjson" % tag)
+    with open(inf, "w") as f:
+        for i in inputs:
+            f.write(json.dumps(i) + "\n")
+    runs = [(name, FAMILIES[name], None) for name in fams]
+    if sim_count:
+        runs.append(("sim", fam((1, 1, 1), 3, False, 1, 1, order="fixed", fix=False, view=False), inf))
+    states = 0
+    with open(vol_file, "w") as vf:
+        for name, spec, infile in runs:
+            cfg = os.path.join(OUT, "tlc", "vmeasure_%s.cfg" % name)
+            consts = dict(Inputs=("<-", "MCInputs"), Ties="keep", Order=spec["order"], LGx=spec["G"][0], LGy=spec["G"][1], LGz=spec["G"][2],
+                          LDim=spec["dim"], LPer=spec["per"], LNmin=spec["nmin"], LNmax=spec["nmax"], LFix=spec["fix"],
+                          UseFile=infile is not None, Emit=True)
+            write_cfg(cfg, constants=consts, invariants=["TypeOK", "Closed", "Oriented", "MeasureOK", "EmitVol"])
+            r = run_tlc("mc/MCVMeasure.tla", cfg, env_extra={"VV_INPUTS": infile or "/dev/null"}, timeout=3000,
+                        tags=("VOL",), tag_sink={"VOL": vf})
+            if r.violation:
+                raise ToolError("VMeasure: an exact identity fails in the model itself (%s): %s\n%s" % (name, r.violation, r.raw_tail[-2000:]))
+            states += r.distinct
+            out.coverage["states"] = out.coverage.get("states", 0) + r.distinct
+            out.coverage["transitions"] = out.coverage.get("transitions", 0) + r.states
+            out.coverage.setdefault("models", {})["VMeasure/" + name] = dict(states=r.distinct, wall=round(r.wall, 1))
+            log("VMeasure model %s: %d states (%.1fs)" % (name, r.distinct, r.wall))
+    rows = [json.loads(line) for line in open(vol_file) if line.strip()]
+    rows.sort(key=lambda o: json.dumps([o["G"], o["dim"], o["per"], o["gens"]]))      # a pure re-ordering: the arithmetic is TLC's
+    srt = os.path.join(OUT, "%s_vol.ndjson" % tag)
+    with open(srt, "w") as f:
+        for o in rows:
+            f.write(json.dumps(o) + "\n")
+    cfg = os.path.join(OUT, "tlc", "vtiletrace.cfg")
+    write_cfg(cfg, spec="TSpec", invariants=["Consumed"], postcondition="TraceAccepted")
+    r = run_tlc("trace/VTileTrace.tla", cfg, workers=1, dfs=True, env_extra={"VV_TRACE": srt}, tags=("VERDICT",), timeout=3000, xmx="6g")
+    if r.violation or not r.ok:
+        raise ToolError("VTileTrace could not consume the volume lines: %s\n%s" % (r.violation or r.error, r.raw_tail[-2000:]))
+    groups = [v for _, v in r.cases]
+    bad = [g for g in groups if g["failed"]]
+    if bad:
+        raise ToolError("VTileTrace: the exact cells of the specification do not tile the box: %s" % json.dumps(bad[0])[:600])
+    out.coverage.setdefault("models", {})["VTileTrace"] = dict(inputs=len(groups), cell_lines=len(rows),
+                                                               primes_min=min([g["primes"] for g in groups] or [0]))
+    log("VTileTrace: %d inputs tile their box exactly (%d cell lines, >= %d primes each)" % (len(groups), len(rows), min([g["primes"] for g in groups] or [0])))
+    return len(groups)
+
+
 def check_C02(tier, seed):
     out = generic_lattice_check(
         "C02", tier, seed,
@@ -462,6 +515,11 @@ def check_C02(tier, seed):
         "every embedded lattice tessellation (1D/2D/3D, periodic and reflective, anisotropic boxes, offsets up to 1e6, "
         "scales 1e-6..2e14): every cell measure > 0 and the sum equals the box measure; distinct = (input, embedding, cell) "
         "triples compared, all of them non-trivial (a wrong cell changes the sum)", with_tess=True)
+    ng = measure_model(out, tier, seed, ["R3s", "P3a", "P2a", "D2a", "D1a", "D1p"] if tier == "quick" else
+                       ["R3a", "R3x", "P3a", "P3b", "P2a", "P2x", "D2a", "D2x", "D1a", "D1p"], 12 if tier == "quick" else 120, "C02")
+    out.coverage["rule"] += (" || design level (VMeasure + VTileTrace): the EXACT volumes of the cells the specification builds (rational, "
+                             "evaluated by TLC modulo three primes) sum to the measure of the box for each of %d lattice inputs, and "
+                             "do not depend on the order in which equidistant candidates are taken" % ng)
     return out.finish()
 
 
@@ -717,7 +775,9 @@ def check_C12(tier, seed):
 
 
 def check_C13(tier, seed):
-    return generic_tess_check("C13", tier, seed, "; dump tokens of the two routes, integral lists vs stored values").finish()
+    out = generic_tess_check("C13", tier, seed, "; dump tokens of the two routes, integral lists vs stored values")
+    session_pipeline(out, tier, seed, 10 if tier == "quick" else 30, 4 if tier == "quick" else 5)
+    return out.finish()
 
 
 def check_C09(tier, seed):
@@ -793,6 +853,9 @@ def check_C09(tier, seed):
     res, verdicts, trace_file = tess_pipeline(tier, seed, "C09")
     apply_tess(out, res, verdicts, trace_file, "C09")
     out.coverage["rule"] += "; every (input, mask) of the tess recorder built twice in a row: bitwise equal"
+    okr = out.coverage.get("traces_validated_against_impl", 0)
+    session_pipeline(out, tier, seed, 5 if tier == "quick" else 16, 4)
+    out.coverage["traces_validated_against_impl"] = max(okr, out.coverage.get("traces_validated_against_impl", 0))
     return out.finish()
 
 
@@ -1211,9 +1274,67 @@ def check_C11(tier, seed):
 
 
 # ----------------------------------------------------------------------------------------------
+# API histories (VSession): spec -> impl -> spec
+# ----------------------------------------------------------------------------------------------
+SESSION_OWNERS = {"C13": {"convert", "direct", "cellint", "faceint", "facesym"},
+                  "C15": {"cellrt", "cellset", "cells", "clone", "withfaces"},
+                  "C09": {"rebuild", "cells", "clone", "cellint", "faceint", "facesym", "convert", "direct"}}
+
+
+def session_pipeline(out, tier, seed, pairs, long_len):
+    """TLC enumerates every history of API calls of a given length from VSession (the public API as one object with a
+    type-state); the harness executes each history on a fresh VoronoiIntegrator and records the token of what every call
+    returned; VSessionTrace validates the sessions: calls legal in the type-state, no observation depends on the history."""
+    ensure_dirs()
+    prop = out.prop
+    files = {}
+    for name, dims3, ln in (("h3", "D3T", 3), ("h3long", "D3T", long_len), ("h2", "D3F", 3)):
+        cfg = os.path.join(OUT, "tlc", "vsession_%s.cfg" % name)
+        write_cfg(cfg, constants=dict(Dims3=("<-", dims3), MaxLen=ln), invariants=["TypeOK", "NoFacesBelow3D", "EmitHist"], properties=["Monotone"])
+        path = os.path.join(OUT, "%s_%s.ndjson" % (prop, name))
+        with open(path, "w") as f:
+            r = run_tlc("mc/MCVSession.tla", cfg, workers=4, tags=("HIST",), tag_sink={"HIST": f}, timeout=1800)
+        if r.violation:
+            raise ToolError("VSession violates its own invariant: %s" % r.violation)
+        out.coverage["states"] = out.coverage.get("states", 0) + r.distinct
+        out.coverage["transitions"] = out.coverage.get("transitions", 0) + r.states
+        out.coverage.setdefault("models", {})["VSession/" + name] = dict(states=r.distinct, length=ln)
+        files[name] = path
+    binp = build_harness()
+    res_file = os.path.join(OUT, "%s_session.json" % prop)
+    trace = os.path.join(OUT, "%s_session.ndjson" % prop)
+    run_harness(binp, ["session", "--out", res_file, "--trace", trace, "--hist3", files["h3"], "--hist3long", files["h3long"], "--hist2", files["h2"],
+                       "--seed", str(seed), "--pairs", str(pairs)], timeout=7200)
+    res = json.load(open(res_file))
+    log("session recorder: %s" % res["stats"])
+    cfg = os.path.join(OUT, "tlc", "vsessiontrace.cfg")
+    write_cfg(cfg, spec="TSpec", invariants=["Consumed", "Summary"], postcondition="TraceAccepted")
+    r = run_tlc("trace/VSessionTrace.tla", cfg, workers=1, dfs=True, env_extra={"VV_TRACE": trace}, tags=("VERDICT", "SUMMARY"), timeout=3000, xmx="8g")
+    if r.violation or not r.ok:
+        raise ToolError("VSessionTrace could not consume the sessions: %s\n%s" % (r.violation or r.error, r.raw_tail[-2000:]))
+    own = SESSION_OWNERS[prop]
+    bad = [v for t, v in r.cases if t == "VERDICT"]
+    summ = [v for t, v in r.cases if t == "SUMMARY"]
+    nbad = 0
+    for v in bad:
+        if v["op"] in own:
+            nbad += 1
+            if nbad <= 3:
+                out.violation("API history %s + [%s]: %s" % (v["hist"], v["op"], v["what"]), dict(verdict=v, pairs=res["pairs"], seed=seed))
+    out.coverage["sessions"] = dict(res["stats"], accepted_calls=(summ[0]["calls"] if summ else 0), rejected_sessions=len(bad), owned_ops=sorted(own))
+    out.coverage["traces_validated_against_impl"] = out.coverage.get("traces_validated_against_impl", 0) + res["stats"]["sessions"] - len(bad)
+    out.coverage["rule"] = out.coverage.get("rule", "") + (
+        " || API histories (VSession): every sequence of %d calls (and of %d calls on one input) out of {cells, cellset, cellint, faceint, facesym, "
+        "convert, direct, rebuild, clone, cellrt, withfaces} executed on a fresh integrator for %d (input, mask) pairs of all dimensionalities; "
+        "VSessionTrace accepts a session iff every call is legal in the type-state and returns bit for bit what the same observation "
+        "returned before in that session (direct = convert without faces; rebuild / clone = cells; cell round trip through the other "
+        "type-state = cell integrals); this check owns the calls %s" % (3, long_len, res["stats"]["pairs"], sorted(own)))
+
+
+# ----------------------------------------------------------------------------------------------
 # C14 / C15: polytopes with faces, decompositions fed to custom integrals (VFaces, VDecomp)
 # ----------------------------------------------------------------------------------------------
-def faces_model(out, tier, seed=0):
+def faces_model(out, tier, seed=0, measure=False):
     fams = [("R3s", FAMILIES["R3s"])] if tier == "quick" else [("R3a", FAMILIES["R3a"]), ("P3b", FAMILIES["P3b"]), ("R3x", FAMILIES["R3x"])]
     # + seeded larger lattice inputs, among them fcc / bcc sub-lattices (cells with vertices where four or more faces meet)
     inputs = sim_inputs(seed, 9 if tier == "quick" else 72, tier, dims=(3,))
@@ -1227,8 +1348,9 @@ def faces_model(out, tier, seed=0):
         cfg = os.path.join(OUT, "tlc", "vfaces_%s.cfg" % name)
         consts = dict(Inputs=("<-", "MCInputs"), Ties="keep", Order="fixed", LGx=spec["G"][0], LGy=spec["G"][1], LGz=spec["G"][2],
                       LDim=spec["dim"], LPer=spec["per"], LNmin=spec["nmin"], LNmax=spec["nmax"], LFix=spec["fix"], UseFile=(name == "sim"), Emit=False)
-        write_cfg(cfg, constants=consts, invariants=["TypeOK", "Closed", "Euler", "Oriented", "FacesOK", "CcwInward", "OrderIndependent", "DecompOK"])
-        r = run_tlc("mc/MCVFaces.tla", cfg, env_extra={"VV_INPUTS": inf if name == "sim" else "/dev/null"}, timeout=3000)
+        write_cfg(cfg, constants=consts, invariants=["TypeOK", "Closed", "Euler", "Oriented", "FacesOK", "CcwInward", "OrderIndependent", "DecompOK"]
+                  + (["MeasureOK"] if measure else []))
+        r = run_tlc("mc/MCVMeasure.tla" if measure else "mc/MCVFaces.tla", cfg, env_extra={"VV_INPUTS": inf if name == "sim" else "/dev/null"}, timeout=3000)
         if r.violation:
             raise ToolError("VFaces model violates its own invariant (%s): %s\n%s" % (name, r.violation, r.raw_tail[-2000:]))
         out.coverage["states"] = out.coverage.get("states", 0) + r.distinct
@@ -1288,6 +1410,7 @@ def check_C15(tier, seed):
                             "re-runs the face extraction on the recorded vertex triples and checks incidence, simple cycles, shared planes, "
                             "direction, Euler, accessors; the harness checks vertex = plane intersection, inside all half-spaces, planarity, "
                             "convexity + ccw about the inward normal, polygon area = area integral, discard/with_faces identity, rejection in 1D/2D")
+    session_pipeline(out, tier, seed, 6 if tier == "quick" else 20, 4)
     out.assumptions = ["geometric clauses are checked numerically with tolerance 50 * (1e-9 scale + 2^12 ulp)", "unchecked accessors: memory safety itself is not "
                        "decided (type-state machine VFaces.CanCall is enforced by the Rust type system)"]
     return out.finish()
@@ -1295,14 +1418,18 @@ def check_C15(tier, seed):
 
 def check_C14(tier, seed):
     out = Outcome("C14", tier, seed)
-    faces_model(out, tier, seed)
+    faces_model(out, tier, seed, measure=True)
     res, verdicts, tf = poly_pipeline(tier, seed, "C14")
     apply_poly(out, res, verdicts, tf, "C14")
     out.coverage["rule"] = ("the harness IS a downstream crate implementing CellIntegral / FaceIntegral (ProbeCell: signed volume + 10 monomial moments "
                             "up to degree 2; ProbeFace: signed area, first moment, distance of fed triangles from the face plane): per cell the moments of "
                             "both decompositions must equal those of the polytope integrated independently from its face polygons; per face the fed "
                             "triangles lie in the plane and sum to the polygon area; TLC (VDecomp) checks the number of tetrahedra / triangles fed per "
-                            "plane in both decompositions and that the cell handed to init is the cell with the same index, under masks")
+                            "plane in both decompositions and that the cell handed to init is the cell with the same index, under masks; design level "
+                            "(VMeasure.MeasureOK): on every finished lattice cell the projection-based decomposition (feet / line projections of the "
+                            "generator, six signed tetrahedra per vertex) and the fan decomposition agree PER PLANE in volume, first and second "
+                            "moments, signed area, face moments and area vector; fed triangles lie in their plane; exact rational identities "
+                            "evaluated by TLC modulo three primes")
     out.assumptions = ["per-cell extra data of a type other than () cannot be implemented downstream (blanket impl of the *WithData traits, E0119): "
                        "the data-alignment clause is observed through the cell passed to init only (finding F10, DESIGN.md)",
                        "moment tolerance 1e-9 * sum|tet volume| * (max |coordinate|)^degree"]
